@@ -150,6 +150,29 @@ class Observer:
         c = self.rec["counts"]
         c[k] = c.get(k, 0) + n
 
+    # ------------------------------------------------------------------ interpreter access
+    def _retry(self, f):
+        """the Lean driver is a child process: if it dies or answers garbage (e.g. its modules are
+        being rebuilt by a concurrent `lake build`), restart it once; a second failure is an
+        infrastructure error, never a verdict"""
+        from common import InfraError
+        try:
+            return f()
+        except (json.JSONDecodeError, InfraError, BrokenPipeError, OSError) as e:
+            self.cnt("interpreter-restarted")
+            try:
+                self.I.close()
+            except Exception:
+                pass
+            self.I = interp.Interp()
+            try:
+                return f()
+            except (json.JSONDecodeError, BrokenPipeError, OSError) as e2:
+                raise InfraError(f"reference interpreter unusable: {type(e2).__name__}: {e2}")
+
+    def run(self, pj, ins):
+        return self._retry(lambda: self.I.run(pj, ins))
+
     # ------------------------------------------------------------------ inputs
     def inputs_for(self, p):
         """n_args * n_cfg inputs valid for p (cached per procedure object)"""
@@ -159,12 +182,12 @@ class Observer:
             fields = dict(self.fields)
             for f, t in cfgs.items():
                 fields.setdefault(f, t)
-            base, _ = self.I.gen_inputs(pj, fields, self.rng, self.n_args, small=True)
+            base, _ = self._retry(lambda: self.I.gen_inputs(pj, fields, self.rng, self.n_args, small=True))
             ins = []
             for b in base:
                 for _ in range(self.n_cfg):
                     ins.append(dict(b, cfg=random_cfg(fields, self.kinds, self.rng)))
-            res = self.I.run(pj, ins) if ins else []
+            res = self.run(pj, ins) if ins else []
             self.cache[k] = (p, pj, fields, ins, res)
         return self.cache[k]
 
@@ -192,7 +215,7 @@ class Observer:
         missing = [k for k in cfgs2 if k not in fields]
         if missing:  # cannot happen: all module fields are initialised
             self.cnt("field-outside-module")
-        res2 = self.I.run(pj2, ins)
+        res2 = self.run(pj2, ins)
         self.cnt("pairs-executed")
         self.cnt("pairs:" + op)
         nontrivial = False
